@@ -602,6 +602,19 @@ def r04_12(prog: Program, rep: Report, urows, pe):
         if is_td and looks_at_sign:
             signed = True
     rep.check(signed, "R04.12", f.qualname, f.loc, "a signed duration text is taken apart (sign, magnitude) before the ISO parser reads the magnitude", "dateparse passes duration text to the parser as is; the parser accepts no sign, so the text the writer emits for every negative timedelta cannot be read back (ParserError)", detail="reader-sign")
+    # (c) the sign is applied to whole microseconds: the parser's Duration class overrides the arithmetic operators
+    #     (__neg__, __mul__, __abs__, division) and rebuilds the result from the float total
+    is_parsed = lambda y: T.is_call_to(y, f"{C.SERDES}.dateparse", "pendulum.parse", "pendulum.duration", f"{C.SERDES}._nomalize_dt")  # noqa: E731
+    floaty_ops = []
+    for p, ret in P.returns(P.paths_of(prog, f)):
+        for x in T.walk(ret):
+            if x[0] == "unop" and x[1] in ("-", "+") and is_parsed(x[2]):
+                floaty_ops.append(T.show(x)[:60])
+            if x[0] == "binop" and x[1] in ("*", "/", "//", "%") and (is_parsed(x[2]) or is_parsed(x[3])):
+                floaty_ops.append(T.show(x)[:60])
+            if T.is_call_to(x, "builtins.abs") and x[2] and is_parsed(x[2][0]):
+                floaty_ops.append(T.show(x)[:60])
+    rep.check(not floaty_ops, "R04.12", f.qualname, f.loc, "no arithmetic operator is applied to a parsed Duration itself (the sign is applied on whole microseconds)", f"an arithmetic operator is applied to the parser's Duration ({floaty_ops[0] if floaty_ops else ''}): pendulum.Duration.__neg__/__mul__/__abs__ rebuild the result from float total_seconds(), so a negative duration beyond 2**33 seconds comes back with wrong microseconds ('-P99421DT0.000001S' reads back a few µs off)", detail="sign-exact")
     k, r = C.route(prog, pe, urows, C.TypeArg("datetime.timedelta"))
     if k != "row" or r.routine is None:
         rep.undecided("R04.12", "unmarshal:timedelta", "", "timedelta routine not found", detail="exact-rebuild")
@@ -725,6 +738,11 @@ def run(prog: Program, rep: Report, tier: str):
     r04_1(prog, rep)
     duration_writer(prog, rep)
     r04_3_4(prog, rep, pe, urows)
+    rep.rule("R04.13", "no parseable text is handed back unparsed by a shortcut of strload (shared with R14.4; guards interpreted on a witness catalogue)", floor=1)
+    from . import c14 as _c14
+
+    _entry, _parser, _ = _c14.parse_function(prog)
+    _c14.text_shortcuts(prog, rep, _entry, _parser, "R04.13")
     rep.rule("R04.12", "durations are read back exactly: signed text taken apart, no float rebuild", floor=2)
     r04_12(prog, rep, urows, pe)
     r04_5(prog, rep, pe, urows)
